@@ -91,14 +91,27 @@ func c15Case(w *rt.W, from, to, probe int64, fromNil, toNil bool, extraProbes ..
 	if tp != nil {
 		*tp = ordDate(probe - 1)
 	}
-	// the caller builds its next filter from the same (now changed) variables while the first one is still in use
-	if f2, err2 := date.FilterFromTo(fp, tp); err2 == nil && f2 != nil {
-		_ = f2.Contains(ordDate(probe))
-	}
 	for _, p := range probes {
 		w.Eval(1)
 		if got := f.Contains(ordDate(p)); got != contains(p) {
 			w.Fail("bounds-follow-caller-variables", "filter", args(p), fmt.Sprint(got), fmt.Sprint(contains(p)), "after the caller changed its variables the filter no longer contains the interval it was built with")
+		}
+	}
+	// the caller builds its next filter from the same variables, which now hold another (valid) range, while the
+	// first filter is still in use
+	if fp != nil {
+		*fp = ordDate(from - 9)
+	}
+	if tp != nil {
+		*tp = ordDate(to + 9)
+	}
+	if f2, err2 := date.FilterFromTo(fp, tp); err2 == nil && f2 != nil {
+		_ = f2.Contains(ordDate(probe))
+		for _, p := range append(probes, from-1, from-9, to+1, to+9) {
+			w.Eval(1)
+			if got := f.Contains(ordDate(p)); got != contains(p) {
+				w.Fail("bounds-follow-caller-variables", "filter", args(p), fmt.Sprint(got), fmt.Sprint(contains(p)), "after the caller built another filter from the same variables the first filter no longer contains the interval it was built with")
+			}
 		}
 	}
 	w.ClassN("filter-probed", int64(len(probes)))
